@@ -68,6 +68,15 @@ def select(fn, sel):
     if kind == "assign":                # k-th assignment whose (first) target prints as `target`
         _, target, k = sel
         hits = [st.value for st in sts if isinstance(st, ast.Assign) and ast.unparse(st.targets[0]) == target]
+    elif kind == "call_kw":             # k-th assignment to `target` whose value is a call: the keyword argument `kw`
+        _, target, k, kwname = sel
+        hits = []
+        for st in sts:
+            if isinstance(st, ast.Assign) and ast.unparse(st.targets[0]) == target and isinstance(st.value, ast.Call):
+                vals = [kw_.value for kw_ in st.value.keywords if kw_.arg == kwname]
+                hits.append(vals[0] if vals else None)
+        if k < len(hits) and hits[k] is None:
+            raise Untranslatable("selector %r: the call has no keyword %s" % (sel, kwname))
     elif kind == "slice_upper":         # k-th assignment to `target` of the form `x[:<upper>]`: the upper bound
         _, target, k = sel
         hits = [st.value.slice.upper for st in sts if isinstance(st, ast.Assign) and ast.unparse(st.targets[0]) == target
@@ -178,7 +187,8 @@ def lean_chain(chain, vm):
 
 
 CALLS = {"get_relation": lambda a, b: "(getRelation %s.cv %s.cv %s.f %s.f)" % (a, b, a, b),
-         "has_feasible": lambda a: "(%s.any (·.feas))" % a}
+         "has_feasible": lambda a: "(%s.any (·.feas))" % a,
+         "Population.merge": lambda a, b: "(%s ++ %s)" % (a, b)}
 
 
 def lean_expr(e, vm):
@@ -191,6 +201,8 @@ def lean_expr(e, vm):
         return vm[s]
     if isinstance(e, ast.Call) and isinstance(e.func, ast.Name) and e.func.id in CALLS and not e.keywords:
         return CALLS[e.func.id](*[lean_expr(a, vm) for a in e.args])
+    if isinstance(e, ast.Call) and isinstance(e.func, ast.Attribute) and ast.unparse(e.func) in CALLS and not e.keywords:
+        return CALLS[ast.unparse(e.func)](*[lean_expr(a, vm) for a in e.args])
     if isinstance(e, ast.BinOp):
         if type(e.op) in BIN:
             return "(%s %s %s)" % (lean_expr(e.left, vm), BIN[type(e.op)], lean_expr(e.right, vm))
@@ -325,6 +337,21 @@ SPECS += [
      "(nObj : Nat) (twonn : Bool) : (if twonn then {e} else nObj) = (if twonn then 2 else nObj)", "rfl"),
     ("mnn_short_front", ["C13", "C14"], "pymoode/misc/mnn.py", "calc_mnn", ("if", 3), {"N": "n", "M": "mNb"},
      "(n mNb : Nat) : {e} = decide (n ≤ mNb)", "rfl"),
+]
+NSDE_ = "pymoode/algorithms/nsde.py"
+EVO = "pymoode/algorithms/base/evolutionary.py"
+MERGE_VM = {"self.pop": "pop", "infills": "off", "self.pop_size": "popSize", "self.n_offsprings": "popSize"}
+SPECS += [
+    ("nsde_merge", ["C06", "C07"], NSDE_, "NSDE._advance", ("assign", "pop", 0), MERGE_VM,
+     "(pop off : List (IndM α)) : mergeCandidates pop off = {e}", "rfl"),
+    ("nsde_quota", ["C06", "C07"], NSDE_, "NSDE._advance", ("call_kw", "self.pop", 0, "n_survive"), MERGE_VM,
+     "(popSize : Nat) : {e} = popSize", "rfl"),
+    ("gde3_quota", ["C05", "C06", "C07"], GDE3, "GDE3._advance", ("call_kw", "self.pop", 0, "n_survive"), MERGE_VM,
+     "(popSize : Nat) : {e} = popSize", "rfl"),
+    ("ea_merge", ["C06", "C07"], EVO, "EvolutionaryAlgorithm._advance", ("assign", "pop", 1), MERGE_VM,
+     "(pop off : List (IndM α)) : mergeCandidates pop off = {e}", "rfl"),
+    ("ea_quota", ["C06", "C07"], EVO, "EvolutionaryAlgorithm._advance", ("call_kw", "self.pop", 0, "n_survive"), MERGE_VM,
+     "(popSize : Nat) : {e} = popSize", "rfl"),
 ]
 # extra selections needed by multi-term statements: name -> [(placeholder, selector, vm)]
 EXTRA = {
